@@ -453,6 +453,13 @@ def unusual_cases():
     for w in ("local-types", "build-tagged", "test-only-dir", "empty-dir-recursive", "anchors", "anchors-nested-map", "long-names", "main-package",
               "unicode-idents", "dot-import", "cgo-free-tags", "nested-module-output", "testfile-iface", "blank-and-init", "configs-null-entry"):
         cases.append({"kind": "unusual", "what": w})
+    # boolean settings given through the environment in every spelling of true/false (valid: the run must succeed) and in spellings that are no
+    # boolean at all (crash-freedom only: a diagnostic and a non-zero exit are fine, an unrecovered panic is not)
+    for var in ("MOCKERY_FORCE_FILE_WRITE", "MOCKERY_REQUIRE_TEMPLATE_SCHEMA_EXISTS"):
+        for sp in ("true", "TRUE", "True", "tRuE", "trUE", "false", "FALSE", "False", "fAlSe", "FALSe"):
+            cases.append({"kind": "unusual", "what": "env-bool-spelling", "env": {var: sp}})
+        for sp in ("t", "T", "1", "0", "yes", "on", "", " true", "true ", "TRUE\n", "ｔｒｕｅ", "İ"):
+            cases.append({"kind": "unusual", "what": "env-bool-not-a-boolean", "env": {var: sp}, "crash_only": True})
     return cases
 
 
@@ -606,12 +613,16 @@ def eval_unusual(ctx, case):
     pre = core.go_cmd(["list", "./..."], root)
     if pre.exit != 0 and not case.get("outmod"):
         return Verdict.inconclusive("toolchain rejects the generated input before mockery runs: " + pre.err[-400:])
-    r = core.run_mockery(ctx, root, [], timeout=300, cpu_limit=120)
+    r = core.run_mockery(ctx, root, [], env_extra=case.get("env"), timeout=300, cpu_limit=120)
     obs = {"exit": r.exit, "what": case["what"]}
+    if case.get("env"):
+        obs["env"] = case["env"]
     if r.timed_out:
         return Verdict.inconclusive("watchdog")
     if r.panicked:
-        return Verdict.violated("valid-but-unusual input (%s) ends in an unrecovered panic" % case["what"], dict(obs, **r.brief()), tags)
+        return Verdict.violated("valid-but-unusual input (%s%s) ends in an unrecovered panic" % (case["what"], " %r" % case["env"] if case.get("env") else ""), dict(obs, **r.brief()), tags)
+    if case.get("crash_only"):
+        return Verdict.held(obs, nontrivial=True, tags=tags + ["crash-freedom-only"])
     if case.get("outmod"):
         # the go.mod governing the *output* directory is malformed or has no module line: crash-freedom only
         return Verdict.held(obs, nontrivial=True, tags=tags + ["crash-freedom-only"])
